@@ -262,6 +262,10 @@ def bulk_behaviour(bins, beh, n, rng):
             nm = "%s/%s%011d" % (t, "bk"[i % 2], i)          # 1 + 1 + 1 + 11 = 14... padded below to 15 bytes
             nm = nm + "x"
             names.append(nm)
+        if n > 300:
+            # one 16-byte name sorting first shifts every later record end onto a multiple of 16, so that path ends
+            # coincide with 4096-byte boundaries of git's output (the smaller sets keep the other alignment)
+            names.insert(0, "a/A%013d" % 0)
         # the trace needs every path declared at reset: rebuild the reset event
         for nm in names:
             sim.id2path[nm] = nm
